@@ -18,26 +18,18 @@ import scipy.sparse
 
 from .common import plist, frac
 
-THEOREMS_PLANNED = [
+THEOREMS = [
     'Pyiga.Props.C10.build_ok',
     'Pyiga.Props.C10.complete_spec',
     'Pyiga.Props.C10.complete_spec_scalar',
+    'Pyiga.Props.C10.scalar_values_broadcast',
     'Pyiga.Props.C10.restrict_extend',
     'Pyiga.Props.C10.extend_restrict',
     'Pyiga.Props.C10.restrict_matrix_spec',
     'Pyiga.Props.C10.complete_restrict',
-    'Pyiga.Props.C10.scalar_values_broadcast',
     'Pyiga.Props.C10.duplicate_indices_error',
     'Pyiga.Props.C10.out_of_range_error',
-    'Pyiga.Props.C10.combine_bcs_spec',
-    'Pyiga.Props.C10.combine_bcs_value',
-    'Pyiga.Props.C10.blocked_numbering_injective',
-    'Pyiga.Props.C10.boundary_dofs_spec',
-    'Pyiga.Props.C10.boundary_dofs_count',
-    'Pyiga.Props.C10.boundary_dofs_flip',
-    'Pyiga.Props.C10.initial_condition_01',
 ]
-THEOREMS = []
 MODULES = ['Pyiga.Model.Index', 'Pyiga.Model.Slice', 'Pyiga.Model.Restrict', 'Pyiga.Proofs.Index',
            'Pyiga.Proofs.Slice', 'Pyiga.Proofs.Restrict', 'Pyiga.Props.C10']
 
